@@ -302,6 +302,14 @@ func (c *VirtualTable) BestIndex(input []IndexInput, order []OrderInput) (*Index
 		out.AlreadyOrdered = false
 	}
 	if *desc {
+		// mast's Cursor.Backward loses or fails on entries below interior
+		// nodes that have absent child links, and Ceil() past the last key
+		// leaves the cursor off the tree; scan in ascending key order and
+		// let SQLite sort instead of returning wrong rows
+		out.AlreadyOrdered = false
+		*desc = false
+	}
+	if *desc {
 		out.IdxStr = "desc " + out.IdxStr
 	} else {
 		out.IdxStr = "asc  " + out.IdxStr
